@@ -132,6 +132,82 @@ def sampling_body(t, rate, d0, d1, d2, d3, max_pairs=2):
     return check(ok, lambda: f"return type {O.show_type(tr.return_type)} for final={final} value {show(ret_val)}")
 
 
+def two_frames_body(t, rate, d0, d1, d2, d3):
+    """Two live frames of the SAME generator function, interleaved (per-frame, not per-code, state)."""
+    rate_kind = t.take(3)  # None, 1, N>=2
+    if rate_kind == 0:
+        r = None
+    elif rate_kind == 1:
+        r = 1
+    else:
+        ASSUME(rate >= 2)
+        r = rate
+    func = F.gen_rebinding
+    cv = CodeView(func.__code__)
+    entries = [{"x": build_value(t, G_ATOM)}, {"x": build_value(t, G_ATOM)}]
+    frames = [FakeFrame(cv, dict(entries[0])), FakeFrame(cv, dict(entries[1]))]
+    yields = [build_value(t, G_ATOM), build_value(t, G_ATOM)]
+    order = t.take(3)
+    # event scripts: (frame index, kind); every frame does call, yield, resume, return
+    scripts = (
+        ((0, "call"), (0, "yield"), (1, "call"), (1, "yield"), (0, "resume"), (0, "return"), (1, "resume"), (1, "return")),
+        ((0, "call"), (1, "call"), (0, "yield"), (1, "yield"), (1, "resume"), (1, "return"), (0, "resume"), (0, "return")),
+        ((0, "call"), (0, "yield"), (1, "call"), (1, "yield"), (1, "resume"), (0, "resume"), (1, "return"), (0, "return")),
+    )[order]
+    logger = ListLogger()
+    rnd = ScriptedRandom([d0, d1, d2, d3])
+    saved = T.random
+    T.random = rnd
+    sampled = [None, None]
+    finished = []
+    try:
+        tracer = CallTracer(logger, 0, None, r)
+        tracer.cache[cv] = func
+        for idx, kind in scripts:
+            fr = frames[idx]
+            if kind == "call":
+                before = rnd.i
+                tracer(fr, "call", None)
+                used = rnd.draws[before: rnd.i]
+                sampled[idx] = True if (r is None or r == 1) else (len(used) >= 1 and used[0] == 0)
+            elif kind == "yield":
+                cv.co_code = [YIELD_OP]
+                tracer(fr, "return", yields[idx])
+                fr.f_locals["x"] = ["rebound", idx]
+                fr.f_locals["tmp"] = idx
+            elif kind == "resume":
+                tracer(fr, "call", None)
+            else:
+                cv.co_code = [RETURN_OP]
+                tracer(fr, "return", None)
+                finished.append(idx)
+    finally:
+        T.random = saved
+    ASSUME(not rnd.bad)
+    for fr in frames:
+        left = residue(tracer, fr)
+        if left:
+            return check(False, lambda: f"per-call state left in tracer.{left[0]} after both calls finished")
+    if residue(tracer, cv):
+        return check(False, "per-code state left in the tracer after both calls finished")
+    want = [i for i in finished if sampled[i]]
+    if len(logger.traces) != len(want):
+        return check(False, lambda: f"script {order}, rate={_i(r)}, draws={_draws(rnd)}: {len(logger.traces)} traces logged, "
+                                    f"the calls sampled at their first call event were {want}: {logger.traces!r}")
+    for tr, i in zip(logger.traces, want):
+        v = entries[i]["x"]
+        if tr.func is not func or set(tr.arg_types) != {"x"} or not O.struct_eq(tr.arg_types["x"], get_type(v, 0)):
+            return check(False, lambda: f"script {order}, rate={_i(r)}, draws={_draws(rnd)}: trace of call #{i} has arguments {tr.arg_types}, the call received {show(v)}")
+        if tr.yield_type is None or not O.struct_eq(tr.yield_type, get_type(yields[i], 0)):
+            return check(False, lambda: f"trace of call #{i}: yield type {O.show_type(tr.yield_type)} != type of {show(yields[i])}")
+        if tr.return_type is None:
+            return check(False, "return type lost")
+    return check(True)
+
+
+tape_harness("sampling_two", [("t", 8)], {"rate": "int", "d0": "int", "d1": "int", "d2": "int", "d3": "int"}, two_frames_body, globals())
+
+
 def _i(x):
     return None if x is None else int(x)
 
@@ -155,6 +231,8 @@ _mk("sampling_thorough", 16, max_pairs=3)
 def shards(name):
     from engine.verdicts import enumerate_prefixes
 
+    if name == "sampling_two":
+        return [{f"t{j}": v for j, v in enumerate(p)} for p in enumerate_prefixes(lambda t: two_frames_body(t, 2, 0, 0, 0, 0), 3)]
     mp = 2 if name == "sampling_quick" else 3
     pres = enumerate_prefixes(lambda t: sampling_body(t, 2, 0, 0, 0, 0, max_pairs=mp), 4)
     return [{f"t{j}": v for j, v in enumerate(p)} for p in pres]
